@@ -382,7 +382,7 @@ example : Gen.Matrix.par_iter_elements_mut_with_index exT exM =
 example : Gen.Matrix.into_par_iter_elements_with_index exT exM =
     .ok [(⟨0, 0⟩, 1), (⟨1, 0⟩, 2), (⟨0, 1⟩, 3), (⟨1, 1⟩, 4), (⟨0, 2⟩, 5), (⟨1, 2⟩, 6)] := by rfl
 /-- the index arithmetic faults on an element-less minor extent, the same way on every tree -/
-example : Gen.Matrix.par_iter_elements_with_index exT (⟨.colMajor, ⟨3, 0⟩, #[1]⟩ : Matrix Nat) =
-    .error (.panic "attempt to divide by zero") := by rfl
+example : ∃ msg, Gen.Matrix.par_iter_elements_with_index exT (⟨.colMajor, ⟨3, 0⟩, #[1]⟩ : Matrix Nat) =
+    .error (.panic msg) := ⟨_, rfl⟩
 
 end Matreex.C16
